@@ -510,6 +510,20 @@ static inline bool match_signature(const Operand_& o0, const Operand_& o1, const
   return match_signature(o0, o1, inst_flags) && o1.signature() == o2.signature() && o2.signature() == o3.signature();
 }
 
+// Checks the wide operand of a long or narrow instruction against its narrow operand, which is the one the size is
+// taken from (see `significant_simd_op()`). Only the scalar form is checked - the wide operand must be a scalar of
+// the double size (B->H, H->S, and S->D). Vector forms are still accepted the way `match_signature()` accepts them.
+static inline bool check_wide_scalar(const Operand_& narrow, const Operand_& wide) noexcept {
+  const Vec& n = narrow.as<Vec>();
+  const Vec& w = wide.as<Vec>();
+
+  if (n.has_element_type()) {
+    return true;
+  }
+
+  return uint32_t(w.reg_type()) == uint32_t(n.reg_type()) + 1u && !w.has_element_type_or_index();
+}
+
 // Memory must be either:
 // 1. Absolute address, which will be converted to relative.
 // 2. Relative displacement (Label).
@@ -3721,6 +3735,10 @@ Case_BaseLdurStur:
 
         SizeOp size_op = element_type_to_size_op(op_data.vec_op_type, sop.as<Reg>().reg_type(), sop.as<Vec>().element_type());
         if (!size_op.is_valid())
+          goto InvalidInstruction;
+
+        // The size comes from the destination of a narrowing instruction, so the source has to be checked against it.
+        if ((inst_flags & InstDB::kInstFlagNarrow) && !check_wide_scalar(o0, o1))
           goto InvalidInstruction;
 
         opcode.reset(op_data.opcode());
